@@ -20,6 +20,7 @@ import Marwood.Lemmas.CompileCorrect3Apply
 import Marwood.Lemmas.CompileCorrect3Embed
 import Marwood.Lemmas.CompileCorrect3Arity
 import Marwood.Lemmas.CompileCorrect3Demo
+import Marwood.Lemmas.CompileCorrect3DemoApply
 /-!
 # C01 — evaluation agrees with the language semantics for core and derived forms
 
@@ -824,10 +825,14 @@ ASSUMED: `Laws3 D` = the heap laws of stage 2 (CLOSURE, ENTER, `envPut`, globals
 through which the same value is observed, and a fresh pair cell; stage-1 values are neither closures nor the
 re-dispatching builtins `apply eval force map for-each` (so these are outside the main theorem); `call` — the
 behaviour of the FIRST-ORDER builtins. All of `Laws3` is PROVED for the toy heap of
-`Lemmas/CompileCorrect3Toy.lean` (`laws3_toy`; allocation by `put`, CLOSURE/ENTER as in run.rs, no builtin), and
+`Lemmas/CompileCorrect3Toy.lean` (`laws3_toy`; allocation by `put`, CLOSURE/ENTER as in run.rs, the only builtin is
+`apply`, so `call` is vacuous), and
 every hypothesis of the main theorem is discharged there for `((lambda (a . r) r) 1 2 3)`
 (`demo_stage3_rest_runs`: VARARG collects `(2 3)`, ENTER, the body, RET; `acc` shows the list `(2 3)`) and for
-`((lambda (x) (define y (if x 1 2)) y) #t)` (`demo_stage3_define_runs`). On the concrete heap model `Laws3` has
+`((lambda (x) (define y (if x 1 2)) y) #t)` (`demo_stage3_define_runs`); the hypotheses of the `apply` theorem
+(`ListLaws`: `listLaws3_toy`) for the whole compiled expression `(apply (lambda (a b) b) 1 '(2))`
+(`demo_stage3_apply_runs`: operands by the main theorem, the load of the global `apply`, the re-dispatch, ENTER, body,
+RET; `acc` shows `2`). On the concrete heap model `Laws3` has
 NOT been proved (open: the `put` laws and `Ext3.pairs/init` for the free-list allocator). -/
 
 open Marwood.Lemmas.CompileCorrect Marwood.Lemmas.CompileCorrect2 Marwood.Lemmas.CompileCorrect3 in
@@ -996,5 +1001,21 @@ theorem closure_call_stage3_rest_arity_error_partial {H : Type} {ops : HeapOps H
     (∃ σ', (evalN (n + 1)).apply (.closure ps (some r) body ρc) ws σ = .err .arity σ') ∧
     Vm.step ops s = .err .invalidNumArgs :=
   closure_call_rest_arity L hclos hi hvs hipL hipO hst hw0 hfew
+
+open Marwood.Lemmas.CompileCorrect2 Marwood.Lemmas.CompileCorrect3 Marwood.Lemmas.CompileCorrect3.Toy in
+/-- `ListLaws` is satisfiable: a theorem on the toy heap -/
+theorem listLaws3_toy (g : Array VCell) (final : List LambdaM) : ListLaws (tD3g g final) := listLaws3 g final
+
+open Marwood.Lemmas.CompileCorrect Marwood.Lemmas.CompileCorrect2 Marwood.Lemmas.CompileCorrect3
+  Marwood.Lemmas.CompileCorrect3.Toy in
+/-- **Non-vacuity, `apply`**: the code the compiler model emits for `(apply (lambda (a b) b) 1 '(2))` runs on the toy
+    heap from the initial state: the operands (stage-3 main theorem), `PUSHIMM argc 3`, the load of the global
+    `apply` (state `sC`: the `apply` builtin is in `acc`), the re-dispatch (`apply_redispatch_stage3_partial`), the
+    call of the closure with operands `1 2`; `acc` ends up showing `2`, the stack as before. -/
+theorem demo_stage3_apply_runs :
+    ∃ W' sC s', Steps tops demoStateA sC ∧ tops.callee sC.heap sC.acc = .builtin 0 ∧
+      CallRun3 demoDA W' sC demoStateA.stack demoStA1 demoStA' (.int 2) s' ∧
+      Run3 demoDA W' demoStateA 19 demoStA demoStA' (.int 2) s' ∧ tDeref s'.heap s'.acc = .opaque "n2" :=
+  demo_apply_runs
 
 end Marwood.Proofs.C01
